@@ -25,6 +25,13 @@ ASSUMPTIONS = [
     "index_unit, ...) are copied faithfully by pickle/copy; independence of the copy is value semantics in the model "
     "and is checked on the implementation by mutating the copy and re-observing the original",
     "item_ok: a CurveItem's data is an array, never None (CurveItem.__init__ guarantees it)",
+    "dtypes: the observation text carries dtype and shape of every curve array (items_common.render_data; the model "
+    "keeps the data text as an opaque payload).  Operation sequences that go to the model use the floating dtypes "
+    "(float64, float32; 1-D, 2-D, empty) because get(add=True) on a curve section computes np.asarray(data) * nan, "
+    "which keeps dtype and shape only for those (Items.nan_like); sequences with int32 / int64 / bool / datetime64 / "
+    "object / text / empty-int arrays and every generated LASFile are judged by the direct oracle only",
+    "a copier that fails in the same way on the bare list of the arrays (no lasio object) is not counted: CPython's "
+    "pure-Python pickler asserts at protocol 5 on a second EMPTY out-of-band buffer (two empty arrays in one list)",
     "hand model of __reduce__/constructor/state restore (Model/Items.v) tied by correspondence: section states built "
     "by operation sequences (gaps and stale suffixes included), copied by pickle protocol p / deepcopy on the real "
     "objects and by the model inside Coq; compared: every field of every item of the original and of both copies",
@@ -115,7 +122,8 @@ def mutate(obj, rng_k):
     obj.descr = "mutd"
     if isinstance(obj, CurveItem) and obj.data is not None and np.asarray(obj.data).size:
         try:
-            obj.data[0] = obj.data[-1] if obj.data.dtype.kind in "US" else 12345.0
+            flat = obj.data.reshape(-1)             # a view: writes into the copy's own buffer
+            flat[0] = flat[-1] if obj.data.dtype.kind in "USMb" else 123
         except Exception:      # noqa: BLE001
             pass
     obj.mnemonic = "RENAMED"
@@ -129,6 +137,14 @@ def check_copy(x, copier_name, with_write=False):
     try:
         y = f(x)
     except Exception as e:      # noqa: BLE001
+        try:
+            f(bare_arrays(x))
+        except Exception as e2:      # noqa: BLE001
+            if type(e2) is type(e):
+                # the copier fails in the same way on the bare list of the arrays, without any lasio object (CPython's
+                # pure-Python pickler, protocol 5, asserts on a second empty out-of-band buffer): not lasio's doing
+                SKIPPED.append(copier_name)
+                return None
         return "%s raised %s: %s" % (copier_name, ic.exc(e), str(e)[:100])
     if type(y) is not type(x):
         return "%s returned a %s" % (copier_name, type(y).__name__)
@@ -146,6 +162,19 @@ def check_copy(x, copier_name, with_write=False):
     if canon_any(x) != before:
         return "%s: mutating the copy changed the original" % copier_name
     return None
+
+
+SKIPPED = []
+
+
+def bare_arrays(x):
+    """the curve arrays of a LASFile / section / item as a plain list (no lasio object involved)"""
+    import lasio
+    if isinstance(x, lasio.LASFile):
+        return [a for s in x.sections.values() if isinstance(s, lasio.SectionItems) for a in bare_arrays(s)]
+    if isinstance(x, lasio.SectionItems):
+        return [it.data for it in list.__iter__(x) if it.data is not None]
+    return [x.data] if x.data is not None else []
 
 
 def first_diff(a, b, path=""):
@@ -196,7 +225,10 @@ def corpus_files(thorough):
 def build_generated(spec):
     """spec: dict(w, c, p, mc, text_curve, edits) -> LASFile"""
     import lasio
-    las = lasio.read(c13.make_file(spec["w"], spec["c"], spec["p"]), mnemonic_case=spec["mc"])
+    kw = {}
+    if spec.get("dtypes"):
+        kw["dtypes"] = [str if d == "str" else np.dtype(d).type for d in spec["dtypes"]]
+    las = lasio.read(c13.make_file(spec["w"], spec["c"], spec["p"]), mnemonic_case=spec["mc"], **kw)
     if spec.get("text_curve"):
         las.append_curve("TXT", np.array(["a", "bb"]), unit="", descr="text curve")
         las.append_curve("TXT", np.array(["c", "dd"]), unit="", descr="text curve again")
@@ -212,6 +244,8 @@ def build_generated(spec):
                 las.params.append(lasio.HeaderItem(e[1], value=3))
             elif e[0] == "addc":
                 las.append_curve(e[1], np.array([1.5, np.nan]))
+            elif e[0] == "addd":
+                las.append_curve(e[1], typed_array(e[2]), unit="u" + e[2], descr="curve of kind " + e[2])
             elif e[0] == "idx":
                 # an in-place correction of one index sample (the last value, hence STOP, is kept when e[1] == 0)
                 if len(las.curves) and las.curves[0].data.dtype.kind == "f" and len(las.curves[0].data) > e[1]:
@@ -221,6 +255,37 @@ def build_generated(spec):
     return las
 
 
+ARRAY_KINDS = ["f4", "f2", "i4", "i8", "b1", "M8", "O", "2d", "2df4", "empty", "emptyi4", "U", "0d"]
+
+
+def typed_array(kind):
+    """two-sample curve arrays of the dtypes / shapes lasio accepts in a CurveItem (np.asarray of anything)"""
+    if kind == "M8":
+        return np.array(["2001-01-23T12:00:01", "2001-01-23T12:00:02"], dtype="datetime64[s]")
+    if kind == "O":
+        a = np.empty(2, dtype=object)
+        a[:] = [1.5, "text"]
+        return a
+    if kind == "2d":
+        return np.array([[1.0, 2.0], [3.0, np.nan]])
+    if kind == "2df4":
+        return np.array([[1.0, 2.0], [3.0, 4.0]], dtype="f4")
+    if kind == "empty":
+        return np.array([], dtype=float)
+    if kind == "emptyi4":
+        return np.array([], dtype="i4")
+    if kind == "U":
+        return np.array(["ab", "c"])
+    if kind == "0d":
+        return np.array(2.5)
+    if kind == "b1":
+        return np.array([True, False])
+    return np.array([1, 2]).astype(kind)
+
+
+READ_DTYPES = ["float64", "float64", "float32", "int32", "int64", "str"]
+
+
 def gen_spec(rng):
     names = c13.FILE_NAMES
     spec = {"w": [rng.choice(names) for _ in range(rng.randint(0, 4))],
@@ -228,9 +293,13 @@ def gen_spec(rng):
             "p": [rng.choice(names) for _ in range(rng.randint(0, 5))],
             "mc": rng.choice(["preserve", "upper", "lower"]),
             "text_curve": rng.random() < 0.3, "edits": []}
+    if rng.random() < 0.4:          # the dtypes= read option, one entry per curve (DEPT included)
+        spec["dtypes"] = [rng.choice(READ_DTYPES) for _ in range(1 + len(spec["c"]))]
     for _ in range(rng.randint(0, 3)):
-        k = rng.choice(["delc", "delp", "delw", "addp", "addc", "idx"])
-        if k == "idx":
+        k = rng.choice(["delc", "delp", "delw", "addp", "addc", "idx", "addd", "addd"])
+        if k == "addd":
+            spec["edits"].append([k, rng.choice(names + ["A:1"]), rng.choice(ARRAY_KINDS)])
+        elif k == "idx":
             spec["edits"].append([k, rng.choice([0, 0, 1])])
         elif k in ("delc", "delp", "delw"):
             spec["edits"].append([k, rng.choice([0, 1, 2, -1, 4])])
@@ -281,6 +350,7 @@ def run(ctx):
     import lasio
     res = lib.Result()
     hist = {}
+    del SKIPPED[:]
     names = [c for c, _ in COPIERS]
     names_all = names + [c for c, _ in COPIERS_EXTRA]
     nontrivial = set()
@@ -312,6 +382,19 @@ def run(ctx):
             bad = check_seq(tr, curve, ops, names_all)
             if bad:
                 res.oracle_violations.append({"payload": {"kind": "seq", "tr": tr, "curve": curve, "ops": ops}, "what": bad})
+    # 1b. curve sections holding arrays of EVERY dtype (int32, int64, bool, datetime64, object, text, empty int32 next
+    # to the floating ones): np.asarray(data) * nan does not keep these dtypes, so the model's nan_like does not apply;
+    # judged by the direct oracle only (canonical content incl. dtype and shape, independence)
+    n_typed = 0
+    for j in range(1500 if ctx.thorough else 150):
+        tr = ctx.rng.random() < 0.5
+        tm = ic.random_sequence(ctx.rng, 14, tr, True)
+        ops = ic.instantiate(tm, True, all_dtypes=True, start=ctx.rng.randrange(12))
+        n_typed += 1
+        hist["random<=14 every dtype (oracle only)"] = hist.get("random<=14 every dtype (oracle only)", 0) + 1
+        bad = check_seq(tr, True, ops, names_all if j % 3 == 0 else names)
+        if bad:
+            res.oracle_violations.append({"payload": {"kind": "seq", "tr": tr, "curve": True, "ops": ops}, "what": bad})
     # 2. LASFiles: corpus and generated
     n_files = 0
     for path in corpus_files(ctx.thorough):
@@ -339,7 +422,8 @@ def run(ctx):
         if bad:
             res.oracle_violations.append({"payload": {"kind": "gen", "spec": spec}, "what": "generated %r: %s" % (spec, bad)})
     res.oracle_violations.sort(key=lambda v: len(v["payload"].get("ops", [])) if v["payload"]["kind"] == "seq" else 99)
-    res.cases = len(cases) + n_files
+    res.cases = len(cases) + n_files + n_typed
+    res.extra["copies_skipped_because_the_copier_fails_on_the_bare_arrays"] = len(SKIPPED)
     if ctx.build.model_ok:
         mism, err = lib.run_coq_cases("c17", [], ic.RUN_COPY_DIGEST, cases, shard=1000)
         res.corr_error = err
@@ -358,7 +442,9 @@ def run(ctx):
                 "section states built by every operation sequence of length <= 2 over the full alphabet (%d ops, incl. "
                 "deletions -> gaps/stale suffixes, rename), core sequences on curve sections, random sequences up to "
                 "length 30 (model correspondence + oracle); LASFiles from tests/examples that read, and generated "
-                "LASFiles with duplicated/blank/case-variant mnemonics in ~W/~C/~P, string and float curves, edited after "
+                "LASFiles with duplicated/blank/case-variant mnemonics in ~W/~C/~P, string and float curves, the dtypes= read "
+                "option (float32/int32/int64/str per curve), appended curves of kind float32/float16/int32/int64/bool/"
+                "datetime64/object/text/2-D/empty/0-d, edited after "
                 "reading (oracle: canonical content, byte-identical write(), independence after mutating the copy), each "
                 "as LASFile, per section and per item. distinct_nontrivial = distinct copied section states / files in "
                 "which at least one session mnemonic differs from its original" % len(ic.full_alphabet()))
